@@ -103,10 +103,17 @@ class Parser:
                     return
 
     def skip_attrs(self):
+        """Skips attributes; returns True if one of them gates the item on the verification feature."""
+        gated = False
         while self.at("#"):
             self.next()
             self.accept("!")
+            start = self.i
             self.skip_balanced("[", "]")
+            txt = " ".join(t[1] for t in self.toks[start:self.i])
+            if "cfg" in txt and "verif-hooks" in txt:
+                gated = True
+        return gated
 
     def skip_type(self, stops):
         """Consume a type up to (not including) a depth-0 token in `stops`."""
@@ -236,7 +243,7 @@ class Parser:
                 self.next()
                 if self.at("("):
                     self.skip_balanced("(", ")")
-            if self.at("fn"):
+            if self.at("fn") or (self.peek()[1] in ("const", "unsafe", "async") and self.at("fn", 1)):
                 f = self.parse_fn(allow_decl=True)
                 if f:
                     items.append(f)
@@ -314,6 +321,9 @@ class Parser:
         if self.accept("&"):
             self.accept("mut")
             return self.parse_pattern()
+        if self.at("&&"):
+            self.next()
+            return self.parse_pattern()
         if self.accept("_"):
             return ("pwild",)
         if self.at("ref") or self.at("mut"):
@@ -366,7 +376,10 @@ class Parser:
         return ("block", stmts)
 
     def parse_stmt(self):
-        self.skip_attrs()
+        if self.skip_attrs():
+            # statement compiled only with the verification hooks: not part of the library's behaviour
+            self.parse_stmt()
+            return None
         line = self.peek()[2]
         if self.accept(";"):
             return None
